@@ -75,7 +75,7 @@ func c13run(line string) (string, []string) {
 func c13(r *rng, tier string, o *out) {
 	nb := 2
 	if tier == "thorough" {
-		nb = 20
+		nb = 60
 	}
 	for c := 0; c < nb; c++ {
 		seed := r.next()
@@ -90,7 +90,7 @@ func c13(r *rng, tier string, o *out) {
 	}
 	n := 150
 	if tier == "thorough" {
-		n = 4000
+		n = 12000
 	}
 	for c := 0; c < n; c++ {
 		ne := 1 + r.intn(20)
